@@ -1603,3 +1603,97 @@ Proof.
     + apply Permutation_map. exact P3.
     + intros x Hx. apply (zmem_map_on _ f x _ Hi); [apply Ir; exact Hx|exact Ip].
 Qed.
+
+(* ---------- non-vacuity ---------- *)
+(* C-C-O  ->  C=C  O(-):  bond 1-2 single -> double, bond 2-3 kept, atom 3 charge 0 -> -1 *)
+Definition example_r : mol :=
+  mkMol [(1, mkAtom 6 None 0 false (Some 3) None); (2, mkAtom 6 None 0 false (Some 2) None); (3, mkAtom 8 None 0 false (Some 1) None)]
+        [(1, [(2, mkBond 1 None)]); (2, [(1, mkBond 1 None); (3, mkBond 1 None)]); (3, [(2, mkBond 1 None)])].
+Definition example_p : mol :=
+  mkMol [(1, mkAtom 6 None 0 false (Some 2) None); (2, mkAtom 6 None 0 false (Some 1) None); (3, mkAtom 8 None (-1) false (Some 0) None)]
+        [(1, [(2, mkBond 2 None)]); (2, [(1, mkBond 2 None); (3, mkBond 1 None)]); (3, [(2, mkBond 1 None)])].
+Theorem compose_example :
+  wf_mol example_r = true /\ wf_mol example_p = true /\
+  (exists h, compose example_r example_p = Ok h /\ is_dynamic_bond h 1 2 /\ is_dynamic_atom h 3 /\ ~ is_dynamic_bond h 2 3 /\
+             list_eqb Z.eqb (center_atoms h) [3; 1; 2] = true).
+Proof.
+  split; [reflexivity|]. split; [reflexivity|]. eexists. split; [vm_compute; reflexivity|].
+  split; [eexists; split; vm_compute; reflexivity|]. split; [eexists; split; vm_compute; reflexivity|].
+  split; [|vm_compute; reflexivity]. intros [b [E D]]. vm_compute in E. inversion E. subst b. vm_compute in D. discriminate.
+Qed.
+
+(* ---------- CGR SMILES tokens: the token determines the dynamic bond / charge pair, and shows ">" exactly
+   when it is dynamic (finite: complete sweeps) ---------- *)
+From Coq Require Import String Ascii.
+Definition orders6 : list (option Z) := [None; Some 1; Some 2; Some 3; Some 4; Some 8].
+Definition charges9 : list Z := zrange (-4) 5.
+Definition opt_str_eqb (a b : option string) : bool := option_eqb String.eqb a b.
+Fixpoint has_gt (s : string) : bool :=
+  match s with EmptyString => false | String c r => Ascii.eqb c ">"%char || has_gt r end.
+
+Definition dyn_order_sweep : bool :=
+  forallb (fun o => forallb (fun p =>
+    match dyn_order_str o p with
+    | None => option_eqb Z.eqb o None && option_eqb Z.eqb p None
+    | Some s =>
+        Bool.eqb (has_gt s) (dbond_dynamic (mkDBond o p)) &&
+        forallb (fun o' => forallb (fun p' =>
+          implb (opt_str_eqb (dyn_order_str o' p') (Some s)) (option_eqb Z.eqb o o' && option_eqb Z.eqb p p')) orders6) orders6
+    end) orders6) orders6.
+Lemma dyn_order_sweep_ok : dyn_order_sweep = true.
+Proof. vm_compute. reflexivity. Qed.
+
+Definition dyn_charge_sweep : bool :=
+  forallb (fun i => forallb (fun j =>
+    match dyn_charge_str i j with
+    | None => false
+    | Some s =>
+        Bool.eqb (has_gt s) (negb (i =? j)) &&
+        forallb (fun i' => forallb (fun j' =>
+          implb (opt_str_eqb (dyn_charge_str i' j') (Some s)) ((i =? i') && (j =? j'))) charges9) charges9
+    end) charges9) charges9.
+Lemma dyn_charge_sweep_ok : dyn_charge_sweep = true.
+Proof. vm_compute. reflexivity. Qed.
+
+Lemma In_orders6 o : In o orders6 <-> o = None \/ o = Some 1 \/ o = Some 2 \/ o = Some 3 \/ o = Some 4 \/ o = Some 8.
+Proof. unfold orders6. cbn [In]. intuition. Qed.
+
+Lemma opt_str_eqb_eq a b : opt_str_eqb a b = true <-> a = b.
+Proof.
+  destruct a, b; cbn; split; intros H; try discriminate; try reflexivity.
+  - apply String.eqb_eq in H. congruence.
+  - inversion H. apply String.eqb_refl.
+Qed.
+
+Theorem dyn_order_str_faithful o p o' p' s : In o orders6 -> In p orders6 -> In o' orders6 -> In p' orders6 ->
+  dyn_order_str o p = Some s ->
+  (has_gt s = dbond_dynamic (mkDBond o p)) /\ (dyn_order_str o' p' = Some s -> o = o' /\ p = p').
+Proof.
+  intros Ho Hp Ho' Hp' E. pose proof dyn_order_sweep_ok as S. unfold dyn_order_sweep in S.
+  rewrite forallb_forall in S. specialize (S o Ho). rewrite forallb_forall in S. specialize (S p Hp). rewrite E in S.
+  apply andb_prop in S. destruct S as [S1 S2]. split; [apply Bool.eqb_prop; exact S1|].
+  intros E'. rewrite forallb_forall in S2. specialize (S2 o' Ho'). rewrite forallb_forall in S2. specialize (S2 p' Hp').
+  rewrite (proj2 (opt_str_eqb_eq _ _) E') in S2. cbn [implb] in S2. apply andb_prop in S2. destruct S2 as [A B].
+  apply option_eqb_Z_eq in A, B. auto.
+Qed.
+
+Theorem dyn_order_str_total o p : In o orders6 -> In p orders6 -> (o <> None \/ p <> None) -> exists s, dyn_order_str o p = Some s.
+Proof.
+  intros Ho Hp Hn. pose proof dyn_order_sweep_ok as S. unfold dyn_order_sweep in S.
+  rewrite forallb_forall in S. specialize (S o Ho). rewrite forallb_forall in S. specialize (S p Hp).
+  destruct (dyn_order_str o p) as [s|]; [exists s; reflexivity|]. apply andb_prop in S. destruct S as [A B].
+  apply option_eqb_Z_eq in A, B. destruct Hn; congruence.
+Qed.
+
+Theorem dyn_charge_str_faithful i j i' j' : -4 <= i <= 4 -> -4 <= j <= 4 -> -4 <= i' <= 4 -> -4 <= j' <= 4 ->
+  exists s, dyn_charge_str i j = Some s /\ (has_gt s = negb (i =? j)) /\ (dyn_charge_str i' j' = Some s -> i = i' /\ j = j').
+Proof.
+  intros Hi Hj Hi' Hj'. pose proof dyn_charge_sweep_ok as S. unfold dyn_charge_sweep in S.
+  assert (R : forall x, -4 <= x <= 4 -> In x charges9) by (intros x Hx; apply zrange_In; lia).
+  rewrite forallb_forall in S. specialize (S i (R i Hi)). rewrite forallb_forall in S. specialize (S j (R j Hj)).
+  destruct (dyn_charge_str i j) as [s|]; [|discriminate]. exists s. split; [reflexivity|].
+  apply andb_prop in S. destruct S as [S1 S2]. split; [apply Bool.eqb_prop; exact S1|].
+  intros E'. rewrite forallb_forall in S2. specialize (S2 i' (R i' Hi')). rewrite forallb_forall in S2. specialize (S2 j' (R j' Hj')).
+  rewrite (proj2 (opt_str_eqb_eq _ _) E') in S2. cbn [implb] in S2. apply andb_prop in S2. destruct S2 as [A B].
+  apply Z.eqb_eq in A, B. auto.
+Qed.
